@@ -35,6 +35,10 @@ NAMES = {
 DIRS = {"plain": ["src", "pkg", "lib dir", "docs"], "LICENSES": ["LICENSES"], ".reuse": [".reuse"], ".git": [".git"],
         ".hg": [".hg"], ".sl": [".sl"], "subprojects": ["subprojects"], "symlinkdir": ["lnk", "lnk2"],
         "ignoreddir": ["build", "out"], "untrackeddir": ["scratch", "tmpdir"], "submodule": ["sm", "vendor-sm"]}
+# names that END IN A LINE BREAK are none of the excluded names (and a directory 'LICENSES\n' is not LICENSES/)
+NAMES_NL = {"LICENSEX": ["LICENSE\n", "LICENCE.txt\n"], "COPYINGX": ["COPYING\n", "COPYING.md\n"], "spdxx": ["a.spdx\n", "a.spdx.json\n"],
+            "license-ext-other": ["x.py.license\n"], "toml-other": ["REUSE.toml\n"], "hidden": [".hgtags\n", ".git\n"]}
+DIRS_NL = ["LICENSES\n", ".reuse\n", ".hg\n", "src"]
 HEADER = "# SPDX-FileCopyrightText: 2020 Some One\n# SPDX-License-Identifier: MIT\n"
 
 
@@ -49,7 +53,7 @@ def build_project(g: dict, rnd: random.Random) -> dict:
         for depth, c in enumerate(n["ctx"]):
             key = (tuple(n["ctx"][:depth + 1]))
             if key not in dirname:
-                pool = DIRS[c]
+                pool = DIRS[c] if not (g.get("nl") and c == "plain") else DIRS_NL
                 dirname[key] = pool[rnd.randrange(len(pool))] if c == "plain" else pool[0]
             comps.append(dirname[key])
             if c == "ignoreddir":
@@ -58,7 +62,7 @@ def build_project(g: dict, rnd: random.Random) -> dict:
                 submodules.add("/".join(comps))
             if c == "untrackeddir":
                 untracked_dirs.add("/".join(comps))
-        pool = NAMES[n["ncls"]]
+        pool = (NAMES_NL.get(n["ncls"]) if g.get("nl") else None) or NAMES[n["ncls"]]
         name = pool[rnd.randrange(len(pool))]
         path = comps + [name]
         if "/".join(path) in used:
@@ -409,6 +413,8 @@ def run(ctx: core.Ctx) -> int:
             routes += ["annotate", "annotate-sub"]
         if i >= n_nogit:
             routes.append("lint-subroot")
+        if i < n_nogit and i % 6 == 1:      # names ending in a line break (the line-oriented outputs cannot carry them: lint --json only)
+            g, routes = dict(g, nl=True), ["lint"]
         cases.append({"tid": i + 1, "g": g, "seed": ctx.seed * 7919 + i, "routes": routes})
     evl = ctx.pmap(run_case, cases, chunksize=8)
     events = [e for es in evl for e in es]
